@@ -1,39 +1,18 @@
 package main
 
 import (
-	"bytes"
 	"fmt"
 	"os"
-	"time"
 
 	"github.com/tsawler/tabula"
-	"verifharness/fw"
-	"verifharness/gen/pdfw"
 )
 
 func main() {
-	r := fw.RandFor(1, "C02", "base", "pdf", 0)
-	kinds := []string{"tt-winansi-tounicode", "t1-winansi"}
-	g := pdfw.GenDoc(r, pdfw.DocOpts{MinPages: 1, MaxPages: 3, MaxLines: 3, MaxFonts: 2, TreeDepth: 1, Inherit: "mixed", NoEmptyPages: true, FontKinds: kinds, FontWidths: true, ExactKinds: true})
-	for k := range g.Doc.Fonts {
-		if g.Doc.Fonts[k].Widths == nil {
-			for c := 32; c <= 255; c++ {
-				g.Doc.Fonts[k].Widths = append(g.Doc.Fonts[k].Widths, 500)
-			}
-		}
+	fr, _, err := tabula.Open(os.Args[1]).Fragments()
+	fmt.Println(err)
+	for _, f := range fr {
+		fmt.Printf("%7.2f %7.2f w=%6.2f sz=%4.1f %s %q\n", f.X, f.Y, f.Width, f.FontSize, f.FontName, f.Text)
 	}
-	lay := pdfw.BaselineLayout()
-	b := pdfw.Build(1, lay, []*pdfw.Doc{g.Doc})
-	fmt.Println(bytes.Count(b.Bytes, []byte("/LastChar")), bytes.Count(b.Bytes, []byte("/TrueType")))
-	x := bytes.Replace(b.Bytes, []byte("/LastChar 255"), []byte("/LastChar 9223372036854775807"), -1)
-	os.WriteFile("/tmp/lc.pdf", x, 0o644)
-	t := time.Now()
-	done := make(chan bool)
-	go func() { _, _, err := tabula.Open("/tmp/lc.pdf").Text(); fmt.Println("err", err); done <- true }()
-	select {
-	case <-done:
-	case <-time.After(5 * time.Second):
-		fmt.Println("HANG")
-	}
-	fmt.Println(time.Since(t))
+	t, _, _ := tabula.Open(os.Args[1]).Text()
+	fmt.Println(t)
 }
